@@ -115,6 +115,13 @@ def make_value(spec):
         base = sys.getsizeof(np.zeros(0, dtype=np.int8))
         n = max(0, spec["size"] - base)
         return np.full(n, fill % 120, dtype=np.int8)
+    if t == "frame":
+        # a table whose rows get lighter along the row order (a log sorted by message length, longest first): far bigger than
+        # any budget used here, whatever sample of its rows a size estimate looks at
+        import pandas as pd
+        rows = int(spec.get("rows", 160))
+        heavy = (rows * 2) // 5
+        return pd.DataFrame({"s": [chr(97 + fill % 26) * (1500 if i < heavy else 3) for i in range(rows)], "n": list(range(rows))})
     if t == "str":
         n = max(0, spec["size"] - sys.getsizeof(""))
         return chr(97 + fill % 26) * n
@@ -128,6 +135,8 @@ def true_size(v):
     estimator): for arrays the header plus the data, whoever owns the buffer."""
     if isinstance(v, np.ndarray):
         return sys.getsizeof(np.zeros(0, dtype=v.dtype)) + int(v.nbytes)
+    if type(v).__name__ == "DataFrame":
+        return int(v.memory_usage(deep=True).sum())
     return sys.getsizeof(v)
 
 
@@ -138,6 +147,8 @@ def digest(v):
         return "nd:" + str(v.dtype) + ":" + hashlib.sha256(v.tobytes()).hexdigest()
     if isinstance(v, BaseException):
         return "exc:" + type(v).__name__ + ":" + str(v)
+    if type(v).__name__ == "DataFrame":
+        return "frame:" + hashlib.sha256(v.to_csv().encode()).hexdigest()
     return type(v).__name__ + ":" + hashlib.sha256(pickle.dumps(v, protocol=4)).hexdigest()
 
 
@@ -351,6 +362,7 @@ class Driver:
         if "keys" in op:
             ev["keys"] = [list(k) for k in op["keys"]]
         pre_digest = tree_digest(self.roots) if self.cfg.get("track_tree") else None
+        np.random.seed(20240301)         # (the cache's size estimate of a table samples rows at random: the same sample every time)
         with Watch(self.roots) as w:
             try:
                 if name == "Memoize":
